@@ -7,15 +7,18 @@ import contracts.compute as CP
 import contracts.processor as PR
 import contracts.standins_pipeline as B
 import contracts.postoffice as PO
+import contracts.standins_iter as B8
 
 PROVED = [CP.do_compute_1, CP.do_compute_2, P.fix_output_chunk, P.fix_output_other, CH.chunk_split, CH.split_array,
-          CH.continuity_check, PR.tmp_init, PO.spy_save_chunk, PO.spy_receive, PO.spy_close, PO.ack_msg_produced]
+          CH.continuity_check, PR.tmp_init, PO.spy_save_chunk, PO.spy_receive, PO.spy_close, PO.ack_msg_produced, PO.message_may_come]
 
 PROPERTY = Property(
     "C01", "proof",
     contracts=PROVED,
     standins=[StandIn("whole pipeline == whole-run computation over chunkings / processors / settings / stored subsets (real Context)",
-                      B.pipeline, B.pipeline.harness, budget={"quick": 160, "thorough": 3000})],
+                      B.pipeline, B.pipeline.harness, budget={"quick": 200, "thorough": 3000}),
+              StandIn("Plugin.iter alignment / exactly-once over independent chunkings (real code, shared with C08)", B8.plugin_iter,
+                      B8.plugin_iter.harness, budget={"quick": 100, "thorough": 700})],
     trusted=["pyvc VC generator and value model", "z3 5.1.0 / cvc5 1.4.0"],
     assumptions=["this check re-proves the per-function building blocks the end-to-end statement rests on; the composition - Plugin.iter's "
                  "buffering, Chunk.concatenate / merge, the PostOffice bus and SaverSpy, the mailbox transport (proved separately as C05), "
